@@ -276,7 +276,7 @@ def run_pt(sc, sched, canonical=False, want_trace=False):
     stats = collections.Counter()
     c = rctx.new_run(sc["seed"])
     seams.seed_global_streams(sc["seed"])
-    cfg = dict(canonical=canonical)
+    cfg = dict(canonical=canonical, max_yields=600_000)
     if not canonical:
         cfg.update(stall_p=sched["stall_p"], long_lat_p=sched["long_lat_p"], pipe_cap=sched["pipe_cap"],
                    speed_spread=sched["speed_spread"])
@@ -321,18 +321,16 @@ def run_pt(sc, sched, canonical=False, want_trace=False):
                     if x_shared is None:
                         x_shared = x0
                     x0 = x_shared.copy()
-                # (only HMC chains: a Gibbs-family chain that sits at -inf feeds a NaN acceptance probability into its
-                #  width adaptation - the constructor means to reject such starts - and an exchange can hand the -inf
-                #  point to any other chain of the ladder)
-                moat_start = sc["target"]["kind"] == "moat" and sc["chain"] == "hmc" and k == (sc["seed"] % N)
+                moat_start = sc["target"]["kind"] == "moat" and k == (sc["seed"] % N)
                 if moat_start:
                     x0[0] = 0.5 * (tg.a + tg.b)  # this chain starts inside the zero-probability moat (L = -inf)
                     stats["fault_chain_starts_at_zero_probability"] += 1
                 spec = dict(kind=sc["chain"], T=temps[k], display=sc["display"], widths=[1.0 + 0.5 * k] * d,
                             epsilon=0.3, bounds=(sc["target"]["lo"], sc["target"]["hi"]) if sc["bounded"] else None,
                             knobs=dict(steps=sc["hmc_steps"], dir_update_interval=sc["pca_update"]))
-                if moat_start:
-                    # a NaN acceptance probability (-inf against -inf) must not reach the width adaptation (see lifecycle)
+                if sc["target"]["kind"] == "moat":
+                    # one chain of this ladder starts at -inf and exchanges can pass that point on: keep every chain's
+                    # width adaptation out of reach of a NaN acceptance probability (-inf against -inf; see lifecycle)
                     spec["knobs"].update(chk_int=10 ** 9, max_tries=10 ** 9)
                 chains.append(build.build_chain(spec, tg, x0))
                 tgts.append(tg)
